@@ -130,12 +130,16 @@ func VK19dEventualDelivery() {
 	var datas [][]byte
 	for i := 0; i < nb; i++ {
 		br := blob.VerifSmallRef(byte(10 + i))
-		d := vrt.Bytes(2)
+		n := 2
+		if i == 0 {
+			n = vrt.Choice(3) // sizes 0..2: the empty blob is a blob like any other
+		}
+		d := vrt.Bytes(n)
 		refs = append(refs, br)
 		datas = append(datas, d)
 		from.Put(br, d)
 		// source upload notifies the sync handler
-		_, err := sh.ReceiveBlob(context.Background(), br, &vCountReader{n: 2})
+		_, err := sh.ReceiveBlob(context.Background(), br, &vCountReader{n: n})
 		vrt.Assert(err == nil, "sync handler enqueues a received blob")
 	}
 	// round 1: one transient failure
